@@ -30,6 +30,9 @@ type Heap struct {
 	havAll map[string]bool
 	all    bool
 	tag    string
+	// loop layers: objects allocated by the function itself before the loop (ref >= freshFrom)
+	// may be written by the loop body without appearing in the assigns clause
+	freshFrom *Term
 }
 
 func baseHeap() *Heap { return &Heap{kind: 0} }
@@ -80,6 +83,13 @@ func (h *Heap) read(d *Decls, key string, vs Sort, ref *Term) *Term {
 		}
 		if ref.S == "0" {
 			return res
+		}
+		if h.freshFrom != nil {
+			la := d.Const(arrName(fmt.Sprintf("L%d", h.id), key), ArrOf(SInt, vs))
+			if ref.S == h.freshFrom.S || strings.HasPrefix(ref.S, "(+ "+h.freshFrom.S+" ") {
+				return Select(la, ref)
+			}
+			return Ite(Ge(ref, h.freshFrom), Select(la, ref), res)
 		}
 		fresh := Ge(ref, h.mark)
 		// syntactic shortcut: ref is (+ mark k) or mark itself
